@@ -50,6 +50,7 @@ pub fn model_seek(sf: SeekFrom, len: u64, pos: u64) -> Option<u64> {
 
 impl Engine {
     pub(crate) fn close_slot(&mut self, slot: usize) -> Result<(), Fail> {
+        self.own_writes[slot].clear();
         if let Some(h) = self.handles[slot].take() {
             guard("h_close", move || drop(h.stream))?;
         }
@@ -159,7 +160,46 @@ impl Engine {
             return Ok(());
         }
         let mut h = self.handles[slot].take().unwrap();
+        let w0 = self.ctl.as_ref().map(|c| c.lock().unwrap().counters.writes).unwrap_or(0);
+        let was_dirty = h.dirty;
+        let pos0 = h.pos;
         let r = self.handle_op(slot, &mut h, op);
+        let w1 = self.ctl.as_ref().map(|c| c.lock().unwrap().counters.writes).unwrap_or(0);
+        if r.is_ok() {
+            if w1 > w0 && was_dirty && matches!(op, Op::HRead { .. } | Op::HReadExact { .. } | Op::HFillConsume { .. } | Op::HWrite { .. } | Op::HWriteAll { .. } | Op::HSeek { .. } | Op::HReadToEnd { .. }) {
+                self.stats.bump("writeback_during_op");
+                self.writebacks += 1;
+            }
+            match op {
+                Op::HWrite { .. } | Op::HWriteAll { .. } => {
+                    if h.pos > pos0 {
+                        self.own_writes[slot].push((pos0, h.pos));
+                    }
+                }
+                Op::HRead { .. } | Op::HReadExact { .. } | Op::HFillConsume { .. } | Op::HReadToEnd { .. } => {
+                    if h.pos > pos0 {
+                        if self.own_writes[slot].iter().any(|&(a, b)| a < h.pos && pos0 < b) {
+                            self.stats.bump("read_own_writes");
+                        }
+                        if self.ev_pred_removed {
+                            self.stats.bump("handle_used_after_pred_removal");
+                        }
+                        if self.ev_slot_reused {
+                            self.stats.bump("handle_used_after_slot_reuse");
+                        }
+                    }
+                }
+                _ => {}
+            }
+            if matches!(op, Op::HWrite { .. } | Op::HWriteAll { .. } | Op::HSetLen { .. }) {
+                if self.ev_pred_removed {
+                    self.stats.bump("handle_used_after_pred_removal");
+                }
+                if self.ev_slot_reused {
+                    self.stats.bump("handle_used_after_slot_reuse");
+                }
+            }
+        }
         self.handles[slot] = Some(h);
         r
     }
@@ -501,6 +541,17 @@ impl Engine {
             }
         }
         self.stats.bump("grow_checked");
+        if self.oracles.shadow_nonzero && !self.any_dirty() {
+            if let Ok(pp) = crate::refparse::parse(&self.snapshot()) {
+                if let Some(id) = pp.find_id(names) {
+                    let ext = pp.stream_extents(id, old, new);
+                    let stale = ext.iter().any(|&(off, len)| (off..off + len).any(|i| self.ever_nonzero.get(i).copied().unwrap_or(false)));
+                    if stale {
+                        self.stats.bump("grow_over_stale");
+                    }
+                }
+            }
+        }
         Ok(())
     }
 }
